@@ -109,6 +109,7 @@ pub fn generate(ch: &mut Chunker, prop: &str, thorough: bool, seed: u64, replays
     run_replays(ch, replays);
     let scale = if thorough { 12 } else { 1 };
     match prop {
+        "STEPS" => gen_steps(ch, &mut r, scale),
         "C10" => gen_c10(ch, &mut r, thorough, scale),
         "C11" => gen_c11(ch, &mut r, thorough, scale),
         "C12" => gen_c12(ch, &mut r, thorough, scale),
@@ -256,6 +257,39 @@ pub fn gen_wrap_family(ch: &mut Chunker, r: &mut Rng, prop: &str, _thorough: boo
             } else {
                 rec_wrap(ch, &text, &o, prop);
             }
+        }
+    }
+}
+
+/// wrap() calls recorded step by step through the crate's `verif-hooks` feature (validated against the
+/// step machine of spec/MC_Wrap.tla by spec/TraceWrap.tla)
+fn gen_steps(ch: &mut Chunker, r: &mut Rng, scale: usize) {
+    let ocfg = OptCfg { indents: true, custom_splitters: true, algs: &[0, 0, 1, 2], crlf: true };
+    for i in 0..60 * scale {
+        let crlf = i % 5 == 0;
+        let tc = TextCfg { max_words: 6, max_paras: 3, ansi: if i % 3 == 0 { Ansi::None } else { Ansi::Any }, unicode: true, ctrl: i % 4 == 0, crlf };
+        let text = match i % 7 {
+            0 => gen_alpha(r, ALPHA_WRAP, 14),
+            1 => gen_alpha(r, ALPHA_ADVERSARIAL, 12),
+            _ => gen_text(r, &tc),
+        };
+        let probe = gen_opts(r, &ocfg, 10);
+        let mut widths = widths_for(r, &text, &probe.ii, &probe.si, false);
+        widths.retain(|&w| w < 1000);
+        for _ in 0..5 {
+            let w = *r.pick(&widths);
+            let mut o = gen_opts(r, &ocfg, w);
+            if r.chance(1, 2) {
+                o.ii = probe.ii.clone();
+                o.si = probe.si.clone();
+            }
+            if !crlf {
+                o.crlf = false;
+            }
+            if text.contains('\u{1b}') && matches!(o.splitter, Splitter::Every2 | Splitter::Every3) {
+                o.splitter = Splitter::Hyphen;
+            }
+            rec_wrap_steps(ch, &text, &o);
         }
     }
 }
